@@ -51,19 +51,20 @@ Proof.
 Qed.
 Print Assumptions gen_sound_full_refuted.
 
-(* F07: str.alphabet('') admits '' but every tape makes random.choice('') raise IndexError *)
-Example f07_witness :
-  gen w0 (SStr None None None None (Some []) None None) [5] = Raise IndexError
-  /\ verdict (SStr None None None None (Some []) None None) (VStr []) = true.
-Proof. vm_compute. auto. Qed.
-
-(* F06: float.min(0.15).max(0.35).precision(1): the all-minimal tape yields 0.1 < 0.15 *)
-Definition f06_s : schema :=
+(* F07 and F06 were repaired in the code (fix: commits); the former witnesses now satisfy [sat]
+   and generate conforming values - e.g. under the all-minimal tape: *)
+Definition f07_s : schema := SStr None None None None (Some []) None None.       (* str.alphabet('') *)
+Definition f06_s : schema :=                                 (* float.min(0.15).max(0.35).precision(1) *)
   SFloat None (Some (mkf false 5404319552844595 (-55))) (Some (mkf false 3152519739159347 (-53)))
          (Some (IInt 1%Z)).
-Example f06_witness :
-  match gen w0 f06_s [0] with Ok (v, _) => negb (verdict f06_s v) | _ => false end = true.
-Proof. vm_compute. reflexivity. Qed.
+Example f07_repaired :
+  sat w0 f07_s /\ match gen w0 f07_s [5] with Ok (v, _) => verdict f07_s v | _ => false end = true.
+Proof.
+  split; [|vm_compute; reflexivity]. cbn. unfold len_ok, STR_LEN_MIN, STR_LEN_MAX. cbn. repeat split; auto; lia.
+Qed.
+Example f06_repaired :
+  sat w0 f06_s /\ match gen w0 f06_s [0] with Ok (v, _) => verdict f06_s v | _ => false end = true.
+Proof. split; [cbn; split; [reflexivity | vm_compute; reflexivity] | vm_compute; reflexivity]. Qed.
 
 (* non-vacuity: a nested schema meeting the hypotheses, generated under two tapes *)
 Definition ex_s : schema :=
